@@ -67,6 +67,9 @@ def run(ctx):
     tiny = util.rescaled(gen.gen_many(ctx.seed, n // 3, dict(CFG, p_coarse=0.0, p_periodic=0.0, kinds={'SimpleContract': 3, 'Transport': 2, 'Storage': 2}), 'c18wh_'), 2.0 ** -20, 1.0)
     for sp in tiny:
         sp['opts']['n_inj'] = 3
+        # (the default interior-point solver does not reach its usual accuracy at this scale, on the unchanged code either: the exact
+        #  simplex / HiGHS interface is chosen, as a user working in such units would)
+        sp['opts']['optimize'] = {'solver': 'SCIPY'}
     specs += tiny
     specs = ctx.specs(specs)
     res = C.run_impl('prices', specs)
